@@ -230,11 +230,12 @@ def setitem(eng, p, base, idx, v):
     if isinstance(base, Host) and base.kind == 'dictview':
         eng.need_canon = True
         c, dom, val, order = dv_arrays(p, base)
-        kk = canon(eng.to_val(p, idx)); i = base.i
+        k_orig = eng.to_val(p, idx)
+        kk = canon(k_orig); i = base.i
         d_i, v_i, o_i = Select(dom, i), Select(val, i), Select(order, i)
         p.heap[base.ref.oid] = c[:5] + (Store(dom, i, Store(d_i, kk, BoolVal(True))),
                                         Store(val, i, Store(v_i, kk, eng.to_int(p, v, 'dict.value'))),
-                                        Store(order, i, If(Select(d_i, kk), o_i, Concat(o_i, Unit(kk)))))
+                                        Store(order, i, If(Select(d_i, kk), o_i, Concat(o_i, Unit(k_orig)))))
         return
     c = content(p, base)
     if c[0] == 'arr' and c[3] == 'dict':
